@@ -4,6 +4,7 @@ import TT.Props.C08
 import TT.Props.C11
 import TT.Props.C12
 import TT.Props.C15
+import TT.Lemmas.Fwd
 /-!
 # C09  No untrusted input can panic, wedge or unboundedly grow the endpoint
 
@@ -94,6 +95,33 @@ theorem socks_udp_datagram_safe (pkt : Bytes) : Socks.udpUnwrap pkt ≠ .panic :
 theorem socks_truncated_reply_is_error (b : Bytes) (r : Socks.Reply) (rest : Bytes)
     (h : Socks.readReply b = .ok r rest) (n : Nat) (hn : n < b.length - rest.length) :
     ∃ e, Socks.readReply (b.take n) = .err e ∧ e = .io := Socks.reply_truncation_is_error b r rest h n hn
+
+/-! ### origin responses of a plain-HTTP forwarding (the origin is untrusted input too) -/
+
+/-- **The response path never loops without consuming input**: in every state reached from the start by
+any origin byte stream in any segmentation and any acceptance pattern of the client, one `write` of the
+forwarded sink with non-empty data strictly decreases (bytes handed back as unsent + entries left in
+the client's acceptance script) - so the pipe's write / wait_writable loop on a segment ends after at
+most `segment length + script length` rounds, whatever the origin sent (bytes beyond the announced
+Content-Length, a body on a bodiless response, broken chunk framing ...). -/
+theorem forwarded_sink_never_spins (ver : Fwd.Ver) (method : Bytes) (quotas : List Nat) (segs : List Bytes) (d : Bytes)
+    (hd : d ≠ []) :
+    let s := Fwd.feed (Fwd.Sink.init ver method quotas) segs
+    (s.write d).2.length + (s.write d).1.quotas.length < d.length + s.quotas.length :=
+  (Fwd.write_post _ d (Fwd.runSink_core ver method quotas segs).2 hd).fuel
+
+/-- with a client that takes everything it is offered, a `write` hands back strictly less than it was given -/
+theorem forwarded_sink_consumes (s : Fwd.Sink) (d : Bytes) (hi : Fwd.Inv s) (hd : d ≠ []) (hq : s.quotas = []) :
+    (s.write d).2.length < d.length := by
+  have h := (Fwd.write_post s d hi hd).fuel
+  rw [hq] at h
+  simp only [List.length_nil] at h
+  omega
+
+/-- and a failed sink stays failed with nothing handed back (the pipe ends instead of retrying) -/
+theorem forwarded_sink_failure_is_final (s : Fwd.Sink) (d : Bytes) (hi : Fwd.Inv s) (hd : d ≠ [])
+    (hf : (s.write d).1.failed = true) : (s.write d).1.phase = .idle ∧ (s.write d).2 = [] :=
+  (Fwd.write_post s d hi hd).dead hf
 
 /-! ### rules -/
 
